@@ -17,15 +17,22 @@ def family_ops(fam):
     return {"W0": {}, "W0b": {"extra": 1}, "Wbad": 5}
 
 
-def run_history(fa, cid, schema, ops, codec, interval, donors, validator=False, sync=b"", meta=None, tag=None):
-    """ops: list of ("write", rec) | ("flush",) | ("wblock", donor, bi) | ("reopen", argsdict). Returns the logged case."""
+def run_history(fa, cid, schema, ops, codec, interval, donors, validator=False, sync=b"", meta=None, tag=None, path=None):
+    """ops: list of ("write", rec) | ("flush",) | ("wblock", donor, bi) | ("reopen", argsdict). Returns the logged case.
+    path: run on a real file (created 'w+b', re-opened 'a+b' for every append) instead of a BytesIO."""
     import fastavro._write_py as W
-    fo = io.BytesIO()
+    holder = {"fo": open(path, "w+b") if path else io.BytesIO()}
+    fo = holder["fo"]
     events = []
     payload_files = []
 
     def snap():
-        return list(fo.getvalue())
+        f = holder["fo"]
+        if path:
+            f.flush()
+            with open(path, "rb") as g:
+                return list(g.read())
+        return list(f.getvalue())
 
     donor_blocks = {}
 
@@ -46,7 +53,7 @@ def run_history(fa, cid, schema, ops, codec, interval, donors, validator=False, 
             w.flush()
             ev = {"op": "flush", "raised": False, "stream": snap()}
             try:
-                recs = list(fa.reader(io.BytesIO(fo.getvalue())))
+                recs = list(fa.reader(io.BytesIO(bytes(ev["stream"]))))
                 ev["readback"] = {"ok": True, "recs": [proj.pv(r) for r in recs]}
             except Exception as e:  # noqa: BLE001
                 ev["readback"] = {"ok": False, "exc": proj.pexc(e)["exc"]}
@@ -72,8 +79,12 @@ def run_history(fa, cid, schema, ops, codec, interval, donors, validator=False, 
             w.flush()
             events.append({"op": "flush", "raised": False, "stream": snap()})
             a = op[1]
-            fo.seek(0, 2)
-            state["w"] = W.Writer(fo, a.get("schema", schema), codec=a.get("codec", codec), sync_interval=a.get("interval", interval),
+            if path:
+                holder["fo"].close()
+                holder["fo"] = open(path, "a+b")
+            else:
+                holder["fo"].seek(0, 2)
+            state["w"] = W.Writer(holder["fo"], a.get("schema", schema), codec=a.get("codec", codec), sync_interval=a.get("interval", interval),
                                   validator=validator, sync_marker=a.get("sync", b""), metadata=a.get("meta"))
             events.append({"op": "reopen", "raised": False, "stream": snap()})
 
@@ -83,7 +94,8 @@ def run_history(fa, cid, schema, ops, codec, interval, donors, validator=False, 
         except Exception as e:  # noqa: BLE001 - an operation that must succeed raised: logged, judged by TLC (C07.op_raised)
             events.append({"op": op[0], "raised": True, "exc": proj.pexc(e)["exc"], "stream": snap(), "donor": 1, "bi": 1})
             break
-    final = fo.getvalue()
+    if path:
+        holder["fo"].close()
     case = {"id": cid, "op": "whist", "schema": proj.pj(schema), "codec": proj.cps(codec), "sync": list(sync), "events": events,
             "ops": [o[0] if o[0] != "write" else "write" for o in ops], "tag": tag or ""}
     # inflate table over every stream seen (payloads are stable once written, the final stream has them all unless something went wrong)
@@ -141,7 +153,9 @@ def exhaustive(ctx, fa, maxlen):
 
 
 def randomised(ctx, fa, n, maxops):
+    import tempfile
     rnd = ctx.sub_rnd("rnd")
+    tmpdir = tempfile.mkdtemp(prefix="verif_c07_", dir=os.path.join(core.VERIF, ".work"))
     codecs = p_file.available_codecs(fa)
     cases = []
     tries = 0
@@ -178,11 +192,17 @@ def randomised(ctx, fa, n, maxops):
                                                    {"codec": rnd.choice(codecs), "meta": {"other": "meta"}, "sync": b"S" * 16}])))
         ops.append(("flush",))
         try:
+            onfile = rnd.random() < 0.25
+            fpath = os.path.join(tmpdir, "h%d.avro" % len(cases)) if onfile else None
             cases.append(run_history(fa, "r%d" % len(cases), schema, ops, rnd.choice(codecs), rnd.choice([1, 10, 60, 100000]), donors,
                                      validator=rnd.random() < 0.3, sync=rnd.choice([b"", bytes(rnd.getrandbits(8) for _ in range(16))]),
-                                     meta=rnd.choice([None, {"k": "v"}]), tag="random"))
+                                     meta=rnd.choice([None, {"k": "v"}]), tag="random-file" if onfile else "random", path=fpath))
+            if fpath and os.path.exists(fpath):
+                os.unlink(fpath)
         except core.tlc.MachineryError:
             raise
+    import shutil
+    shutil.rmtree(tmpdir, ignore_errors=True)
     return cases
 
 
